@@ -19,6 +19,15 @@ Theorem C19_windows_membership : forall b n eix jj ii,
 Proof. exact agg_loop_mem. Qed.
 Print Assumptions C19_windows_membership.
 
+(** no window is yielded twice, and the number of results is known in advance:
+    max(0, begin_ix - max(end_ix, n-1)) *)
+Theorem C19_windows_distinct_and_counted : forall b n eix,
+  1 <= n -> 0 <= b ->
+  NoDup (agg_loop (Z.to_nat b) b n eix) /\
+  Z.of_nat (length (agg_loop (Z.to_nat b) b n eix)) = Z.max 0 (b - Z.max eix (n - 1)).
+Proof. intros b n eix Hn Hb. split; [now apply agg_loop_nodup|now apply agg_loop_length]. Qed.
+Print Assumptions C19_windows_distinct_and_counted.
+
 Theorem C19_newest_first : forall k hi, StronglySorted Z.gt (down k hi).
 Proof. exact down_sorted. Qed.
 Print Assumptions C19_newest_first.
